@@ -60,6 +60,61 @@ type vC12Net struct {
 	packets atomic.Int64
 	answer  vC12Answer
 	bindErr error
+	rec     *vC12Rec
+}
+
+// vC12Rec is the step-by-step observer: while [on], every upstream packet arrival and every
+// sub-pipeline entry/exit is appended, in arrival order, as a Coq [event] term together with the
+// request tree's ledger counters read at that moment (the snapshot is taken under the same mutex that
+// orders the log, so the logged counters are monotone).
+type vC12Rec struct {
+	mu    sync.Mutex
+	on    bool
+	led   *middleware.RecursionWorkLedger
+	evs   []string
+	alien int // sub-runs whose context carried a different ledger than the tree's
+}
+
+func (r *vC12Rec) packet() {
+	if r == nil {
+		return
+	}
+	r.mu.Lock()
+	defer r.mu.Unlock()
+	if !r.on || r.led == nil {
+		return
+	}
+	s := r.led.Snapshot()
+	r.evs = append(r.evs, fmt.Sprintf("EvX %d %d", s.OutboundQueries, s.InternalQueries))
+}
+
+func (r *vC12Rec) sub(ctx context.Context, nest int) bool {
+	if r == nil {
+		return false
+	}
+	r.mu.Lock()
+	defer r.mu.Unlock()
+	if !r.on || r.led == nil {
+		return false
+	}
+	if l := middleware.RecursionWorkFrom(ctx); l != r.led {
+		r.alien++
+	}
+	dn, _ := ctx.Value(contextKeyDnameDepth).(int)
+	nsl := ctx.Value(contextKeyNSL) != nil
+	s := r.led.Snapshot()
+	r.evs = append(r.evs, fmt.Sprintf("EvS (mk_sl %d (mk_cx %s %d %d %s)) %d %d", nest,
+		vC12Flag(middleware.IsBestEffortRecursionWork(ctx)), cachemw.VC12ChaseDepth(ctx), dn, vC12Flag(nsl),
+		s.OutboundQueries, s.InternalQueries))
+	return true
+}
+
+func (r *vC12Rec) end() {
+	r.mu.Lock()
+	defer r.mu.Unlock()
+	if r.on {
+		r.evs = append(r.evs, "EvE")
+	}
 }
 
 // advertised address of server identity id. TEST-NET ranges; an address that happens to be
@@ -91,6 +146,7 @@ func (n *vC12Net) handler(id int, tcp bool) dns.Handler {
 			return
 		}
 		n.packets.Add(1)
+		n.rec.packet()
 		src := n.answer(id, req.Question[0], tcp)
 		reply := new(dns.Msg)
 		reply.SetReply(req)
@@ -549,11 +605,16 @@ func vC12RandTopo(r *rand.Rand, finite bool) vC12Topo {
 type vC12Probe struct {
 	runs   atomic.Int64
 	ledger atomic.Pointer[middleware.RecursionWorkLedger]
+	rec    *vC12Rec
 }
 
 func (p *vC12Probe) Name() string { return "vc12probe" }
 func (p *vC12Probe) ServeDNS(ctx context.Context, ch *middleware.Chain) {
 	p.runs.Add(1)
+	// the code's own nesting counter: 0 in the client's chain, depth+1 inside Queryer.Query
+	if nest := middleware.VC12QueryerDepth(ctx); nest > 0 && p.rec.sub(ctx, nest) {
+		defer p.rec.end()
+	}
 	ch.Next(ctx)
 	// the ledger is materialised by the first debit at the latest; the client's own chain
 	// returns last, so the pointer left here is the tree's
@@ -563,10 +624,25 @@ func (p *vC12Probe) ServeDNS(ctx context.Context, ch *middleware.Chain) {
 }
 
 type vC12Rig struct {
-	v6    bool
-	net   *vC12Net
-	probe *vC12Probe
-	pipe  *middleware.Pipeline
+	v6     bool
+	net    *vC12Net
+	probe  *vC12Probe
+	pipe   *middleware.Pipeline
+	policy middleware.RecursionWorkPolicy
+	rec    *vC12Rec
+}
+
+// traced runs one client query on its own ledger and returns the event sequence of its request tree
+func (rig *vC12Rig) traced(qname string, edns bool) (vC12Reply, []string, int) {
+	own := middleware.NewRecursionWorkLedger(rig.policy)
+	rig.rec.mu.Lock()
+	rig.rec.led, rig.rec.evs, rig.rec.alien, rig.rec.on = own, nil, 0, own != nil
+	rig.rec.mu.Unlock()
+	rep := rig.queryWith(qname, edns, own)
+	rig.rec.mu.Lock()
+	defer rig.rec.mu.Unlock()
+	rig.rec.on = false
+	return rep, rig.rec.evs, rig.rec.alien
 }
 
 func vC12Mode(m int) config.RecursionFirewallMode {
@@ -581,7 +657,8 @@ func vC12Mode(m int) config.RecursionFirewallMode {
 }
 
 func vC12NewRig(topo vC12Topo, mode int, maxOut, maxInt uint32, qmin bool) (*vC12Rig, error) {
-	n := &vC12Net{answer: topo.answer}
+	rec := &vC12Rec{}
+	n := &vC12Net{answer: topo.answer, rec: rec}
 	n.start(topo.servers)
 	if n.bindErr != nil {
 		n.stop()
@@ -625,7 +702,7 @@ func vC12NewRig(topo vC12Topo, mode int, maxOut, maxInt uint32, qmin bool) (*vC1
 	r.resolveTarget.Store(&mapper)
 	h := &DNSHandler{resolver: r, cfg: cfg}
 	cm := cachemw.New(cfg)
-	probe := &vC12Probe{}
+	probe := &vC12Probe{rec: rec}
 	reg := middleware.NewRegistry()
 	reg.Register("edns", func(c *config.Config) middleware.Handler { return edns.New(c) })
 	reg.Register("vc12probe", func(*config.Config) middleware.Handler { return probe })
@@ -637,7 +714,7 @@ func vC12NewRig(topo vC12Topo, mode int, maxOut, maxInt uint32, qmin bool) (*vC1
 	h.SetStore(cm.Store())
 	cm.SetQueryer(q)
 	cm.SetPrefetchQueryer(middleware.NewPipelineQueryer(p.SubPipeline("cache")))
-	return &vC12Rig{v6: topo.v6, net: n, probe: probe, pipe: p}, nil
+	return &vC12Rig{v6: topo.v6, net: n, probe: probe, pipe: p, policy: policy, rec: rec}, nil
 }
 
 type vC12Reply struct {
@@ -839,6 +916,41 @@ func TestVerifC12Lab(t *testing.T) {
 		fixed[len(boundary)] = vC12Fixed{f.maxOut, f.maxInt, f.qmin}
 		boundary = append(boundary, f.t)
 	}
+	// one more client query on a fresh resolver, observed step by step
+	traceCase := func(topo vC12Topo, mode int, maxOut, maxInt uint32, qmin, edns bool) {
+		rig, err := vC12NewRig(topo, mode, maxOut, maxInt, qmin)
+		if err != nil {
+			emit(map[string]any{"k": "lab-trace", "inconclusive": true, "desc": err.Error()})
+			return
+		}
+		rep, evs, alien := rig.traced(topo.qname, edns)
+		rig.net.stop()
+		tree := !topo.v6 // the detached IPv6 walk runs beside the client's chain on a fresh context
+		if len(evs) > 600 {
+			evs, tree = evs[:600], false
+		}
+		subs, xs := 0, 0
+		for _, e := range evs {
+			if strings.HasPrefix(e, "EvS") {
+				subs++
+			} else if strings.HasPrefix(e, "EvX") {
+				xs++
+			}
+		}
+		goFail := ""
+		if alien != 0 {
+			goFail = fmt.Sprintf("%d sub-pipeline runs carried a ledger other than their request tree's", alien)
+		}
+		modeName := map[int]string{1: "shadow", 2: "enforce"}[mode]
+		emit(map[string]any{
+			"k":          "lab-trace-" + modeName + "-" + topo.name,
+			"coq":        fmt.Sprintf("CaseTrace %d %d %d %s %s [%s]", mode, maxOut, maxInt, vC12Flag(topo.v6), vC12Flag(tree), strings.Join(evs, "; ")),
+			"nontrivial": subs > 0 || xs > 1,
+			"go_fail":    goFail,
+			"desc": map[string]any{"topology": topo.name, "p1": topo.p1, "p2": topo.p2, "qname": topo.qname, "qmin": qmin, "edns": edns, "mode": modeName,
+				"max_outbound": maxOut, "max_internal": maxInt, "upstream_arrivals": xs, "sub_pipeline_runs": subs, "reply": fmt.Sprintf("%+v", rep)},
+		})
+	}
 	for c := 0; c < n+len(boundary); c++ {
 		qmin := r.Intn(2) == 0
 		edns := r.Intn(4) != 0
@@ -925,6 +1037,9 @@ func TestVerifC12Lab(t *testing.T) {
 			if a.first != 0 {
 				one("second-", b, vC12Reply{})
 			}
+			if c < len(boundary) || c%3 == 0 {
+				traceCase(topo, 2, maxOut, maxInt, qmin, edns)
+			}
 		}
 		// ---- off vs shadow on a topology that is finite without the firewall
 		topo = vC12RandTopo(r, true)
@@ -962,6 +1077,9 @@ func TestVerifC12Lab(t *testing.T) {
 			"go_fail":    goFail,
 			"desc":       desc,
 		})
+		if c < len(boundary) || c%3 == 1 {
+			traceCase(topo, 1, uint32(1+r.Intn(3)), uint32(1+r.Intn(2)), qmin, edns)
+		}
 		// shadow mode counts: the same case viewed as a ledger observation
 		emit(map[string]any{
 			"k": "lab-shadow-" + topo.name,
